@@ -272,6 +272,10 @@ func ParseSliceHeader(nalu []byte, spsMap map[uint32]*SPS, ppsMap map[uint32]*PP
 					sh.NumRefIdxL1ActiveMinus1 = uint8(r.ReadExpGolomb())
 				}
 			}
+			if sh.NumRefIdxL0ActiveMinus1 > 14 || sh.NumRefIdxL1ActiveMinus1 > 14 {
+				return sh, fmt.Errorf("num_ref_idx_active_minus1 %d or %d is larger than 14",
+					sh.NumRefIdxL0ActiveMinus1, sh.NumRefIdxL1ActiveMinus1)
+			}
 
 			if pps.ListsModificationPresentFlag {
 				if pps.SccExtension != nil && pps.SccExtension.CurrPicRefEnabledFlag {
